@@ -929,3 +929,40 @@ ALWAYS_REFUSED = ('U_add_call_qq_T_K_degC', 'U_subtract_call_qq_T_K_degC', 'U_ad
 for _n in ALWAYS_REFUSED:
     globals()[_n].expect_return = False
 _UnaryOffsetRefusal.expect_return = False
+
+
+class _BinaryOffsetRefusal(_Ufunc):
+    """C08/C18: hypot / remainder / mod / fmod divide or square the readings, and multiply / divide
+    multiply them: with an operand on an offset temperature scale (degC, degF, mdegC) the call is
+    refused, whatever the other operand, and nothing is written"""
+    plain = False
+    properties = ("C08", "C18")
+    expect_return = False
+    which = 0                        # the operand that is on an offset scale
+
+    def requires(self, it, a):
+        out = _Ufunc.requires(self, it, a)
+        u = self.units(a)[self.which]
+        out.append(("operand %d is on an offset temperature scale" % self.which,
+                    z3.And(_b(S.dim(u).is_base("temperature")), S.offset(u) != 0)))
+        return out
+
+    def raises(self, it, a):
+        # the class is not pinned (the library uses InvalidUnitOperation here and UnitOperationError /
+        # UnitConversionError for incommensurable operands, whichever test comes first)
+        return {"InvalidUnitOperation": z3.BoolVal(True), "UnitOperationError": z3.BoolVal(True),
+                "UnitConversionError": z3.BoolVal(True)}
+
+    def ensures(self, it, a, r, old):
+        return [("C08: an offset-scale reading is never divided, squared or multiplied", False)]
+
+    def canary(self, it, a, r, old):
+        return None
+
+
+OFFSET_REFUSALS = []
+for _uf in ("hypot", "remainder", "fmod", "multiply", "divide"):
+    for _w in (0, 1):
+        for _o in (None, "o"):
+            OFFSET_REFUSALS.append(_mk(_BinaryOffsetRefusal, _uf, ("q", "q"), out=_o, suffix="_offset%d" % _w, which=_w))
+ALL += OFFSET_REFUSALS
